@@ -1,14 +1,14 @@
-\* quick export, singles: every URI (accepted or not) over the whole alphabet
-\* {a, A, ".", "..", "%2e%2e", "%2F", "a b", "", x200 (a 200 character segment)}, <= 2 segments; hosts incl. "." ".." "".
+\* thorough export (4/4), singles: all kinds, <= 2 segments over the whole alphabet, scheme case and ports on,
+\* authorities ".", "..", "" as well.
 SPECIFICATION Spec
 CONSTANTS
   Variant = "as_shipped"
   Kinds = {"mft", "mftn", "ta", "tah", "notify"}
   Mode = "single"
-  HostsR = {"h.test", "..", ""}
-  HostsH = {"h.test", "..", ".", ""}
+  HostsR = {"h.test", "h.test.", "..", ""}
+  HostsH = {"h.test", "h.test.", "..", ".", ""}
   HCases = {"lower", "mixed"}
-  SCases = {"lower"}
+  SCases = {"lower", "upper"}
   Ports = {"", "873"}
   Mods = {"m", "..", ""}
   Segs = {"a"}
